@@ -5,9 +5,6 @@
   `encode` is `char::encode_utf8` per character; `decode` is the strict decoder of
   `String::from_utf8` (rejects overlong forms, surrogates, values above U+10FFFF, stray or missing
   continuation bytes). The proved law (VrlProofs/Lemmas/Utf8.lean) is `decode (encode cs) = some cs`.
-  VrlModel.Utf8 — `String::from_utf8_lossy` / `<[u8]>::utf8_chunks` (core::str::lossy) on byte lists:
-  every maximal invalid chunk is replaced by U+FFFD (`EF BF BD`).  A chunk's invalid part is the
-  prefix of an ill-formed sequence that `Utf8Chunks::next` consumed before it broke off (1–3 bytes).
 -/
 
 namespace Utf8
@@ -71,74 +68,5 @@ def decodeFuel : Nat → List Nat → Option (List Char)
 
 /-- strict UTF-8 decoder (`String::from_utf8`). -/
 def decode (bs : List Nat) : Option (List Char) := decodeFuel bs.length bs
-def isCont (b : Nat) : Bool := decide (128 ≤ b) && decide (b ≤ 191)
-
-def replacement : List Nat := [239, 191, 189]
-
-/-- second byte admissible after the lead byte `b0` of a three byte sequence -/
-def ok3 (b0 b1 : Nat) : Bool :=
-  (b0 == 224 && decide (160 ≤ b1) && decide (b1 ≤ 191)) ||
-  (decide (225 ≤ b0) && decide (b0 ≤ 236) && isCont b1) ||
-  (b0 == 237 && decide (128 ≤ b1) && decide (b1 ≤ 159)) ||
-  (decide (238 ≤ b0) && decide (b0 ≤ 239) && isCont b1)
-
-/-- second byte admissible after the lead byte `b0` of a four byte sequence -/
-def ok4 (b0 b1 : Nat) : Bool :=
-  (b0 == 240 && decide (144 ≤ b1) && decide (b1 ≤ 191)) ||
-  (decide (241 ≤ b0) && decide (b0 ≤ 243) && isCont b1) ||
-  (b0 == 244 && decide (128 ≤ b1) && decide (b1 ≤ 143))
-
-/-- One step of `Utf8Chunks`: what is emitted for the sequence starting at the head of the list
-    and how many bytes it consumes (at least one). -/
-def step : List Nat → List Nat × Nat
-  | [] => ([], 1)
-  | b0 :: rest =>
-    if b0 < 128 then ([b0], 1)
-    else if 194 ≤ b0 ∧ b0 ≤ 223 then
-      match rest with
-      | b1 :: _ => if isCont b1 then ([b0, b1], 2) else (replacement, 1)
-      | [] => (replacement, 1)
-    else if 224 ≤ b0 ∧ b0 ≤ 239 then
-      match rest with
-      | b1 :: r1 =>
-        if ok3 b0 b1 then
-          match r1 with
-          | b2 :: _ => if isCont b2 then ([b0, b1, b2], 3) else (replacement, 2)
-          | [] => (replacement, 2)
-        else (replacement, 1)
-      | [] => (replacement, 1)
-    else if 240 ≤ b0 ∧ b0 ≤ 244 then
-      match rest with
-      | b1 :: r1 =>
-        if ok4 b0 b1 then
-          match r1 with
-          | b2 :: r2 =>
-            if isCont b2 then
-              match r2 with
-              | b3 :: _ => if isCont b3 then ([b0, b1, b2, b3], 4) else (replacement, 3)
-              | [] => (replacement, 3)
-            else (replacement, 2)
-          | [] => (replacement, 2)
-        else (replacement, 1)
-      | [] => (replacement, 1)
-    else (replacement, 1)
-
-def lossyFuel : Nat → List Nat → List Nat
-  | 0, _ => []
-  | _, [] => []
-  | n + 1, s =>
-    let (out, k) := step s
-    out ++ lossyFuel n (s.drop k)
-
-/-- `String::from_utf8_lossy(s)` as UTF-8 bytes. -/
-def lossy (s : List Nat) : List Nat := lossyFuel s.length s
-
-/-- `s` is valid UTF-8 (the lossy conversion leaves it alone). -/
-def valid (s : List Nat) : Bool := lossy s == s
-
-def lowerAscii (b : Nat) : Nat := if 65 ≤ b ∧ b ≤ 90 then b + 32 else b
-
-/-- `str::eq_ignore_ascii_case` -/
-def eqIgnoreAsciiCase (a b : List Nat) : Bool := a.map lowerAscii == b.map lowerAscii
 
 end Utf8
